@@ -12,7 +12,7 @@
    included).  What the record level says about a batch whose log is obsolete
    is [flushed]: it was literally contained in tables named by an edit. *)
 From Coq Require Import Lia ZifyBool ZifyNat ZifyN.
-From LCDB Require Import FsModel FsLemmas FsInv FsDur.
+From LCDB Require Import FsModel FsLemmas FsInv FsDur FsAck.
 Local Open Scope N_scope.
 
 (* ------------------------------------------------------------------ reading an image *)
@@ -140,4 +140,189 @@ Proof.
       destruct (ifile_log _ _ _ _ _ IS Hr) as [o [x [bsall [H1 [H2 [H3 ->]]]]]].
       exists o, x, bsall. repeat split; auto.
       rewrite (batches_of_firstn _ _ (cut o) H3) in Hb. injection Hb as <-. reflexivity.
+Qed.
+
+(* ------------------------------------------------------------------ what a successful recovery read *)
+Lemma recover_inv : forall img s, recover img = Some s ->
+  iget img FCurrent = Some [PCurrent (r_manifest s)] /\ complete_manifest img (r_manifest s).
+Proof.
+  intros img s H. unfold recover in H.
+  destruct (iget img FCurrent) as [l|] eqn:Ec; [|discriminate].
+  destruct l as [|r1 l]; [discriminate|]. destruct r1; try discriminate. destruct l; [|discriminate].
+  destruct (iget img (FManifest m)) as [recs|] eqn:Em; [|discriminate].
+  destruct (edits_of recs) as [eds|] eqn:Ee; [|discriminate].
+  destruct (mv_next (replay eds)) as [nx|] eqn:E1; [|discriminate].
+  destruct (mv_log (replay eds)) as [lg|] eqn:E2; [|discriminate].
+  destruct (mv_last (replay eds)) as [ls|] eqn:E3; [|discriminate].
+  destruct (read_tables img (mv_files (replay eds))) as [tabs|] eqn:Et; [|discriminate].
+  destruct (read_logs img _) as [segs|]; [|discriminate].
+  injection H as <-. cbn [r_manifest]. split; [reflexivity|].
+  exists recs, eds. split; [exact Em|split; [exact Ee|split]].
+  - unfold manifest_ok. rewrite E1, E2, E3. reflexivity.
+  - rewrite Et; discriminate.
+Qed.
+
+Lemma crash_image_cut : forall tr img, crash_image tr img ->
+  exists k cut, admissible (fs_run tr) k /\ cut_ok (fs_run tr) cut /\ img = image_of (fs_run tr) k cut.
+Proof. intros tr img [k [cut [H1 [H2 H3]]]]. exists k, cut. auto. Qed.
+
+Lemma iget_current_none : forall d k cut, nsk d k FCurrent = None -> iget (image_of d k cut) FCurrent = None.
+Proof. intros d k cut H. rewrite iget_image_of. unfold ifile. rewrite H. reflexivity. Qed.
+
+Lemma iget_current_some : forall d k cut, iget (image_of d k cut) FCurrent <> None -> exists c, nsk d k FCurrent = Some c.
+Proof.
+  intros d k cut H. destruct (nsk d k FCurrent) as [c|] eqn:E; [eauto|].
+  exfalso; apply H. apply iget_current_none; exact E.
+Qed.
+
+(* every crash image with a CURRENT file recovers *)
+Lemma crash_recovers : forall tr, wf_protocol tr = true -> forall img, crash_image tr img ->
+  iget img FCurrent <> None ->
+  exists k cut s, admissible (fs_run tr) k /\ cut_ok (fs_run tr) cut /\ img = image_of (fs_run tr) k cut /\
+    recover img = Some s /\ recovered (prun tr) k cut s.
+Proof.
+  intros tr Hwf img Hc Hcur. destruct (crash_image_cut _ _ Hc) as [k [cut [A [Hcut ->]]]].
+  destruct (iget_current_some _ _ _ Hcur) as [c Hb].
+  pose proof (Inv_dur_run _ Hwf) as I.
+  destruct (recover_good (prun tr) k cut c I) as [s [Hr Hrec]]; rewrite ?prun_disk; auto.
+  rewrite prun_disk in Hr. exists k, cut, s. auto.
+Qed.
+
+(* ------------------------------------------------------------------ C17b *)
+Theorem C17_current_complete : forall tr, wf_protocol tr = true ->
+  forall p img, crash_image (firstn p tr) img ->
+  iget img FCurrent = None \/
+  exists m, iget img FCurrent = Some [PCurrent m] /\ complete_manifest img m.
+Proof.
+  intros tr Hwf p img Hc. pose proof (wf_protocol_firstn _ p Hwf) as Hwf'.
+  destruct (iget img FCurrent) as [l|] eqn:E; [|left; reflexivity]. right.
+  destruct (crash_recovers _ Hwf' _ Hc) as [k [cut [s [_ [_ [_ [Hr _]]]]]]]; [congruence|].
+  destruct (recover_inv _ _ Hr) as [H1 H2]. exists (r_manifest s). rewrite <- E. auto.
+Qed.
+
+(* ------------------------------------------------------------------ C05 *)
+Lemma seg_is_log_prefix : forall tr k cut s, wf_protocol tr = true -> recovered (prun tr) k cut s ->
+  forall n bs, In (n, bs) (r_segs s) ->
+    exists o x, nsk (fs_run tr) k (FLog n) = Some o /\ nth_error (d_objs (fs_run tr)) o = Some x /\
+      batches_of (o_recs x) = Some (log_batches tr n) /\ bs = firstn (cut o) (log_batches tr n).
+Proof.
+  intros tr k cut s Hwf R n bs Hin.
+  pose proof (id_struct _ (Inv_dur_run _ Hwf)) as IS. pose proof (Inv_trace_run _ Hwf) as IT.
+  destruct (rc_segs _ _ _ _ R _ _ Hin) as [o [x [bsall [Hb [Hx [Hbs ->]]]]]].
+  destruct (proj1 (nsk_created _ _ _ _ _ (is_ops _ IS) Hb)) as [i [_ Hc]]; [discriminate|].
+  pose proof (in_logs_of_created _ _ _ _ IS Hc) as Hk.
+  apply in_map_iff in Hk. destruct Hk as [[n' bs'] [En Hin']]. cbn [fst] in En; subst n'.
+  pose proof (is_logs_recs _ IS _ _ _ _ _ Hin' Hc Hx) as Hrecs. rewrite Hbs in Hrecs. injection Hrecs as ->.
+  rewrite (it_logs _ IT _ _ Hin') in *. rewrite prun_disk in *. exists o, x. auto.
+Qed.
+
+Lemma recovered_log_le_cov : forall tr k cut s, wf_protocol tr = true -> recovered (prun tr) k cut s ->
+  r_log s <= p_cov (prun tr).
+Proof.
+  intros tr k cut s Hwf R. destruct (rc_view _ _ _ _ R) as [c [M [xM [eds [V [He [Hexp [_ Hl]]]]]]]].
+  destruct V as [_ [_ [_ V4]]]. eapply exposed_log_le_cov; eauto using Inv_dur_run.
+Qed.
+
+Theorem C05_recovery_total_and_tail_only : forall tr, wf_protocol tr = true ->
+  forall p img, crash_image (firstn p tr) img -> iget img FCurrent <> None ->
+  exists s, recover img = Some s /\ per_segment_prefix (firstn p tr) s /\
+    (forall n b, In b (log_batches (firstn p tr) n) -> n < r_log s -> flushed (firstn p tr) b).
+Proof.
+  intros tr Hwf p img Hc Hcur. pose proof (wf_protocol_firstn _ p Hwf) as Hwf'.
+  destruct (crash_recovers _ Hwf' _ Hc Hcur) as [k [cut [s [A [Hcut [-> [Hr R]]]]]]].
+  exists s. split; [exact Hr|split; [split; [|split]|]].
+  - intros n bs Hin. destruct (seg_is_log_prefix _ _ _ _ Hwf' R _ _ Hin) as [o [x [_ [_ [_ ->]]]]]. eauto.
+  - rewrite (rc_nums _ _ _ _ R). apply sorted_filter. apply sort_N_sorted.
+  - intros n Hn. rewrite (rc_nums _ _ _ _ R) in Hn. apply filter_In in Hn. destruct Hn as [_ Hn].
+    apply orb_true_iff in Hn. destruct Hn as [Hn|Hn].
+    + left. apply N.leb_le; exact Hn.
+    + right. rewrite (rc_prev _ _ _ _ R). apply N.eqb_eq; exact Hn.
+  - intros n b Hb Hn. pose proof (Inv_trace_run _ Hwf') as IT.
+    pose proof (recovered_log_le_cov _ _ _ _ Hwf' R) as Hle.
+    destruct (in_dec N.eq_dec n (map fst (p_logs (prun (firstn p tr))))) as [Hk|Hk].
+    + apply in_map_iff in Hk. destruct Hk as [[n' bs] [En Hin]]. cbn [fst] in En; subst n'.
+      eapply (it_flushed _ IT); [exact Hin|lia|]. rewrite (it_logs _ IT _ _ Hin). exact Hb.
+    + rewrite (it_nologs _ IT _ Hk) in Hb. contradiction.
+Qed.
+
+(* ------------------------------------------------------------------ C02 *)
+(* a created log is in the cut unless it has been unlinked before the cut *)
+Lemma nsk_log_bound_or_unlinked : forall d nobj i n o, ops_wf (d_ops d) nobj ->
+  created_at d i (FLog n) o -> forall k, (i < k)%nat -> (k <= length (d_ops d))%nat ->
+  nsk d k (FLog n) = Some o \/ exists u, (i < u < k)%nat /\ nth_error (d_ops d) u = Some (DUnlink (FLog n)).
+Proof.
+  intros d nobj i n o W Hc k; induction k as [|k IH]; intros H1 H2; [lia|].
+  destruct (Nat.eq_dec i k) as [->|Hne].
+  - left. rewrite (nsk_S _ _ _ Hc). cbn [ns_apply]. rewrite fname_eqb_refl. reflexivity.
+  - destruct IH as [IH|[u [Hu1 Hu2]]]; try lia.
+    2:{ right. exists u. split; [lia|exact Hu2]. }
+    destruct (nth_error (d_ops d) k) as [op|] eqn:Eop; [|apply nth_error_None in Eop; lia].
+    rewrite (nsk_S _ _ _ Eop).
+    destruct op as [g o'|a b|g]; cbn [ns_apply].
+    + destruct (fname_eqb (FLog n) g) eqn:E; [|left; exact IH].
+      apply fname_eqb_eq in E; subst g.
+      assert (i = k) by (eapply create_unique_pos; [apply (ow_nodup _ _ W)|exact Hc|exact Eop]). lia.
+    + destruct (ops_wf_ren_nth _ _ _ _ _ W Eop) as [[t ->] ->].
+      destruct (nsk d k (FTmp t)); [|left; exact IH]. cbn [fname_eqb]. left; exact IH.
+    + destruct (fname_eqb (FLog n) g) eqn:E; [|left; exact IH].
+      apply fname_eqb_eq in E; subst g. right. exists k. split; [lia|exact Eop].
+Qed.
+
+Lemma in_firstn_nth_error : forall {A} (l : list A) j c x, nth_error l j = Some x -> (j < c)%nat -> In x (firstn c l).
+Proof.
+  intros A l; induction l as [|y r IH]; intros j c x H Hj; [destruct j; discriminate|].
+  destruct c; [lia|]. destruct j; cbn in H |- *.
+  - injection H as ->; left; reflexivity.
+  - right; eapply IH; eauto. lia.
+Qed.
+
+(* an unlinked log is below every recoverable log_number *)
+Lemma unlinked_log_dead : forall tr k cut s n, recovered (prun tr) k cut s ->
+  Inv_dur (prun tr) -> admissible (fs_run tr) k ->
+  In (DUnlink (FLog n)) (d_ops (fs_run tr)) -> n < r_log s.
+Proof.
+  intros tr k cut s n R I A Hin. destruct (rc_view _ _ _ _ R) as [c [M [xM [eds [V [He [Hexp [_ Hl]]]]]]]].
+  rewrite <- prun_disk in A, Hin.
+  destruct (proj1 (Good_view _ _) (id_good _ I k A) c (proj1 V)) as [m' [M' [xM' [V' Hms]]]].
+  destruct (view_fun _ _ _ _ _ _ _ _ _ _ V V') as [_ [_ [_ <-]]].
+  destruct (Hms _ Hexp) as [_ [_ G3]]. specialize (G3 n Hin). unfold log_dead in G3. rewrite Hl in G3.
+  apply N.ltb_lt; exact G3.
+Qed.
+
+Theorem C02_synced_durable : forall tr, wf_protocol tr = true ->
+  forall p img, crash_image (firstn p tr) img -> iget img FCurrent <> None ->
+  exists s, recover img = Some s /\
+    forall id b, acked_sync_before tr p id b \/ acked_and_log_unlinked_before tr p id b ->
+                 applied (firstn p tr) s b.
+Proof.
+  intros tr Hwf p img Hc Hcur. pose proof (wf_protocol_firstn _ p Hwf) as Hwf'.
+  destruct (crash_recovers _ Hwf' _ Hc Hcur) as [k [cut [s [A [Hcut [-> [Hr R]]]]]]].
+  exists s. split; [exact Hr|].
+  set (tr' := firstn p tr) in *.
+  pose proof (Inv_dur_run _ Hwf') as I. pose proof (id_struct _ I) as IS. pose proof (Inv_trace_run _ Hwf') as IT.
+  pose proof (is_ops _ IS) as W. rewrite prun_disk in W.
+  intros id b [[n Hack]|[n [sy [Hack Hunl]]]].
+  - (* sync-acknowledged *)
+    destruct (it_dur _ IT _ _ _ Hack) as [i [o [x [j [Hcr [Hx [Hj Hn]]]]]]].
+    assert (Hi : (i < k)%nat).
+    { rewrite <- prun_disk in Hcr, Hx. destruct (is_typed _ IS _ _ _ _ Hcr Hx) as [_ [_ S2]].
+      specialize (S2 ltac:(lia)). destruct A as [A1 _]. rewrite <- prun_disk in A1. lia. }
+    destruct (nsk_log_bound_or_unlinked _ _ _ _ _ W Hcr k Hi (proj2 A)) as [Hb|[u [Hu1 Hu2]]].
+    + destruct (N.leb_spec (r_log s) n) as [Hle|Hlt].
+      * left. (* the log is replayed, at least up to its fsynced prefix *)
+        assert (Hnum : In n (map fst (r_segs s))).
+        { rewrite (rc_nums _ _ _ _ R). apply filter_In. split.
+          - apply in_image_logs. rewrite prun_disk, iget_image_of. unfold ifile. rewrite Hb, Hx. eauto.
+          - apply orb_true_iff; left. apply N.leb_le; exact Hle. }
+        apply in_map_iff in Hnum. destruct Hnum as [[n' bs] [En Hin]]. cbn [fst] in En; subst n'.
+        destruct (seg_is_log_prefix _ _ _ _ Hwf' R _ _ Hin) as [o' [x' [Hb' [Hx' [_ ->]]]]].
+        rewrite Hb in Hb'. injection Hb' as <-. rewrite Hx in Hx'. injection Hx' as <-.
+        unfold applied_batches. apply in_flat_map. exists (n, firstn (cut o) (log_batches tr' n)). split; [exact Hin|].
+        cbn [snd]. eapply in_firstn_nth_error; [exact Hn|]. pose proof (Hcut _ _ Hx). lia.
+      * right. exists n. split; [eapply nth_error_In; exact Hn|exact Hlt].
+    + right. exists n. split; [eapply nth_error_In; exact Hn|].
+      eapply unlinked_log_dead; eauto. eapply nth_error_In; exact Hu2.
+  - (* the log that held it has been unlinked *)
+    right. exists n. split; [eapply (it_ack_log _ IT); exact Hack|].
+    eapply unlinked_log_dead; eauto. apply (it_unl _ IT); exact Hunl.
 Qed.
